@@ -990,6 +990,10 @@ ecdsa_pub_key_import_be(ec_curve_p curve,
 		    (pub_key_x + 1), bytes));
 		BN_RET_ON_ERR(bn_import_be_bin(&point->y,
 		    (pub_key_x + 1 + bytes), bytes));
+		/* Hybrid form: y ≡ pub_key_x[0] (mod 2) */
+		if (4 != pub_key_x[0] &&
+		    (pub_key_x[0] & 1) != (0 != bn_is_odd(&point->y)))
+			return (-1);
 		BN_RET_ON_ERR(ec_point_check_as_pub_key__int(point, curve));
 		return (0);
 	}
@@ -1057,6 +1061,10 @@ ecdsa_pub_key_import_le(ec_curve_p curve,
 		    (pub_key_x + 1), bytes));
 		BN_RET_ON_ERR(bn_import_le_bin(&point->y,
 		    (pub_key_x + 1 + bytes), bytes));
+		/* Hybrid form: y ≡ pub_key_x[0] (mod 2) */
+		if (4 != pub_key_x[0] &&
+		    (pub_key_x[0] & 1) != (0 != bn_is_odd(&point->y)))
+			return (-1);
 		BN_RET_ON_ERR(ec_point_check_as_pub_key__int(point, curve));
 		return (0);
 	}
@@ -1263,6 +1271,8 @@ ecdsa_sign(ec_curve_p curve, bn_p hash, bn_p priv_key, bn_p rnd,
 	/* R = rnd*G */
 	/* Slow operation. */
 	BN_RET_ON_ERR(ec_point_mult_bp(sign_s, curve, &R));
+	if (0 != R.infinity) /* k = 0: no x (R.x may keep old value). */
+		return (-1);
 	/* r = Rx mod n */
 	BN_RET_ON_ERR(bn_mod(&R.x, &curve->n, &curve->n_mod_rd_data));
 	if (0 != bn_is_zero(&R.x))
